@@ -7,6 +7,7 @@ CONSTANTS
   Doms = {"dA", "dB", "dC"}
   Rngs = {"rA", "rB"}
   NiceMs = {"10", "2"}
+INVARIANT C12_CallsComplete
 INVARIANT C12_EndpointsMap
 INVARIANT C12_InvertAfterHistory
 INVARIANT C12_CopyIndependent
